@@ -131,6 +131,10 @@ fn reduce_list(
 pub fn minimize(mut case: Case, budget_secs: f64) -> Option<Replay> {
     let deadline = Instant::now() + std::time::Duration::from_secs_f64(budget_secs);
     let o = crate::run_one(&case, "min");
+    let dbg = std::env::var("FJSIM_MIN_DEBUG").is_ok();
+    if dbg {
+        eprintln!("min: first run violation={:?} schedule_len={:?}", o.violation.as_ref().map(|v| v.clause.clone()), o.schedule.as_ref().map(Vec::len));
+    }
     let v = o.violation?;
     let clause = v.clause.clone();
     let mut detail = v.detail.clone();
@@ -141,6 +145,9 @@ pub fn minimize(mut case: Case, budget_secs: f64) -> Option<Replay> {
         case.fault = f;
     }
     // it must reproduce from the explicit form
+    if dbg {
+        eprintln!("min: explicit form once -> {:?}", fails_once(&case, &clause).map(|r| r.0.chars().take(120).collect::<String>()));
+    }
     let (d, sch, _) = fails(&case, &clause)?;
     if case.engine == Engine::Thr {
         if let Some(s) = sch {
@@ -148,6 +155,7 @@ pub fn minimize(mut case: Case, budget_secs: f64) -> Option<Replay> {
         }
     }
     detail = d;
+    let first_explicit = case.clone();
 
     // truncate after the failing op (SEQ)
     if let (Engine::Seq, Some(idx)) = (&case.engine, v.op_index) {
@@ -239,7 +247,8 @@ pub fn minimize(mut case: Case, budget_secs: f64) -> Option<Replay> {
                     let mut s2 = sch.clone();
                     s2[i] = s2[i - 1];
                     trial.schedule = Some(s2.clone());
-                    if let Some((d, _, _)) = fails(&trial, &clause) {
+                    // exactly this schedule must fail (no search for another one here)
+                    if let Some((d, _, _)) = fails_once(&trial, &clause) {
                         sch = s2;
                         case = trial;
                         detail = d;
@@ -253,18 +262,29 @@ pub fn minimize(mut case: Case, budget_secs: f64) -> Option<Replay> {
     }
     // final confirmation from the explicit minimised form (a THR case must fail under its own
     // explicit schedule, not under a freshly searched one)
-    let (d, sch, _) = fails(&case, &clause)?;
-    if case.engine == Engine::Thr {
-        if let Some(s) = sch {
-            case.schedule = Some(s);
-        }
+    if dbg {
+        eprintln!("min: final form: program {} ops, threads {:?}, schedule {:?}", case.program.len(), case.threads.iter().map(Vec::len).collect::<Vec<_>>(), case.schedule.as_ref().map(Vec::len));
+        eprintln!("min: final once -> {:?}", fails_once(&case, &clause).map(|r| r.0.chars().take(100).collect::<String>()));
+        eprintln!("min: final once again -> {:?}", fails_once(&case, &clause).map(|r| r.0.chars().take(100).collect::<String>()));
     }
-    let (d, _, _) = fails_once(&case, &clause).or_else(|| {
-        // one more round: the adopted schedule is a recording of a failing run, so this can only
-        // miss if the run is not a function of the schedule - report as not reproduced
-        let _ = &d;
-        None
-    })?;
+    let mut confirmed = None;
+    if let Some((_, sch, _)) = fails(&case, &clause) {
+        if case.engine == Engine::Thr {
+            if let Some(s) = sch {
+                case.schedule = Some(s);
+            }
+        }
+        confirmed = fails_once(&case, &clause);
+    }
+    if confirmed.is_none() {
+        // the minimised form does not fail from its explicit schedule: fall back to the
+        // unminimised explicit form (a recording of the failing run); if that does not fail
+        // either the run is not a function of the schedule - report as not reproduced
+        case = first_explicit;
+        confirmed = fails_once(&case, &clause);
+    }
+    let (d, _, _) = confirmed?;
+    let _ = &detail;
     Some(Replay {
         property: case.prop.clone(),
         clause,
